@@ -217,6 +217,13 @@ def classify(ck, records, verdicts, label, stats):
             bump("Same*: more than one section", len(osecs) > 1)
             if r.get("roundtrip_reordered"):
                 stats["roundtrip_reordered"] += 1
+            for rule in v.get("ext", []):
+                stats.setdefault("ext", {})
+                k = f"{rule} ({', '.join(sorted({o['kind'] for o in r['offer']['secs'] if o['kind'] in ('application', 'image')}))})"
+                if k not in stats["ext"]:
+                    stats["ext"][k] = {"records": 0, "example": {"offer_fmts": [o["fmts"] for o in r["offer"]["secs"]],
+                                                                 "answer_fmts": [a.get("fmts") for a in r["answer"]["secs"]]}}
+                stats["ext"][k]["records"] += 1
             if not v["failed"]:
                 continue
             stats["invalid"] += 1
@@ -260,6 +267,8 @@ def run(tier):
     check_witnesses(ck)
     attach_texts(ck)
     ck.notes.append({"rules_exercised_on_accepted_records": stats.get("exercised", {})})
+    for k, e in stats.get("ext", {}).items():
+        ck.drift.append({"what": "EXT rule " + k, **e})
     if stats["roundtrip_reordered"]:
         ck.drift.append({"what": "parse(print(d)) equals d only up to the relative order of attributes with different "
                                  "keys (transport attributes are printed first)", "records": stats["roundtrip_reordered"]})
